@@ -114,6 +114,36 @@ func verifC12Case(line string) (out string) {
 			order = append(order, host2uuid[h])
 		}
 		return verifC12Join(order)
+	case "reload":
+		// one client, several service lists loaded in turn through the discovery decoding path
+		kc := &KeepClient{Arvados: &arvadosclient.ArvadosClient{ApiToken: "tok"}}
+		var outs []string
+		for _, l := range strings.Split(f[2], ";") {
+			root2uuid := map[string]string{}
+			var items []string
+			for _, p := range verifC12Split(l) {
+				kv := strings.SplitN(p, ":", 2)
+				if len(kv) != 2 {
+					return "bad-op"
+				}
+				root2uuid["http://"+kv[1]+":25107"] = kv[0]
+				items = append(items, fmt.Sprintf(`{"uuid":%q,"service_host":%q,"service_port":25107,"service_ssl_flag":false,"service_type":"disk","read_only":false}`, kv[0], kv[1]))
+			}
+			err := kc.LoadKeepServicesFromJSON(`{"items_available":` + fmt.Sprint(len(items)) + `,"items":[` + strings.Join(items, ",") + `]}`)
+			if err != nil {
+				return "load-error " + err.Error()
+			}
+			var order []string
+			for _, r := range kc.getSortedRoots(f[1] + "+3") {
+				if u, ok := root2uuid[r]; ok {
+					order = append(order, u)
+				} else {
+					order = append(order, r)
+				}
+			}
+			outs = append(outs, verifC12Join(order))
+		}
+		return strings.Join(outs, " / ")
 	case "roots", "rootseq":
 		if len(f) != 4 {
 			return "bad-op"
